@@ -203,7 +203,7 @@ Definition expected_shape : list (string * list string) :=
     ("server.Handler.accept",
      ["call self.__gc_step__/0"; "call request_handler"; "call self.loop.create_task/1"; "setitem self._tasks"; "lambda"; "call task.add_done_callback/1"]);
     ("server.Handler.cancel",
-     ["call self._tasks.pop/1"; "call task.cancel/0"; "call self._cancelled.add/1"]);
+     ["call self._tasks.pop/2"; "if task is not None"; "call task.cancel/0"; "call self._cancelled.add/1"; "endif"]);
     ("server.Handler.close",
      ["for self._tasks.values()"; "call self._tasks.values/0"; "call task.cancel/0"; "endfor"; "call self._tasks.values/0"; "call self._cancelled.update/1"; "set self.closing"]) ]%string.
 
@@ -236,125 +236,6 @@ Definition shape_as_expected : bool :=
 
 Lemma shape_ok : shape_as_expected = true.
 Proof. vm_compute. reflexivity. Qed.
-
-(* ------------------------------------------------------------------------------------------ *)
-(* registry lemmas *)
-
-Definition keys (l : list (Z * srec)) : list Z := map fst l.
-
-Lemma keys_map_reg f l : keys (map_reg f l) = keys l.
-Proof. unfold keys, map_reg. rewrite map_map. reflexivity. Qed.
-
-Lemma keys_upd_present sid v l r : lookup sid l = Some r -> keys (upd sid v l) = keys l.
-Proof.
-  induction l as [|[k w] t IH]; simpl; intro H; [discriminate|].
-  destruct (k =? sid) eqn:E; simpl; [reflexivity|]. f_equal. auto.
-Qed.
-
-Lemma keys_upd_in sid v l k : In k (keys (upd sid v l)) -> k = sid \/ In k (keys l).
-Proof.
-  induction l as [|[k0 w] t IH]; simpl.
-  - intros [H|[]]; auto.
-  - destruct (k0 =? sid) eqn:E; simpl.
-    + intros [H|H]; auto.
-    + intros [H|H]; auto. destruct (IH H); auto.
-Qed.
-
-Lemma keys_remove_in sid l k : In k (keys (remove sid l)) -> In k (keys l) /\ k <> sid.
-Proof.
-  induction l as [|[k0 w] t IH]; simpl; [tauto|].
-  destruct (k0 =? sid) eqn:E; simpl.
-  - intro H. destruct (IH H). split; auto.
-  - intros [H|H].
-    + subst. split; auto. apply Z.eqb_neq in E. exact E.
-    + destruct (IH H). split; auto.
-Qed.
-
-Lemma lookup_in_keys sid l r : lookup sid l = Some r -> In sid (keys l).
-Proof.
-  induction l as [|[k w] t IH]; simpl; [discriminate|].
-  destruct (k =? sid) eqn:E; intro H.
-  - left. apply Z.eqb_eq in E. exact E.
-  - right. auto.
-Qed.
-
-Lemma forallb_map_fst (P : Z -> bool) (l : list (Z * srec)) :
-  forallb (fun kv => P (fst kv)) l = forallb P (keys l).
-Proof. unfold keys. induction l; simpl; auto. rewrite IHl. reflexivity. Qed.
-
-(* ------------------------------------------------------------------------------------------ *)
-(* invariants as propositions *)
-
-Definition kinv (seen : list Z) (h : hstate) (ks : list Z) : Prop :=
-  forall k, In k ks -> has_live_task k h = true \/ In k seen.
-
-Lemma sinv_iff seen s : sinv_b seen s = true <-> kinv seen (st_h s) (keys (st_reg s)).
-Proof.
-  unfold sinv_b, kinv.
-  rewrite (forallb_map_fst (fun k => has_live_task k (st_h s) || existsb (Z.eqb k) seen)).
-  rewrite forallb_forall. split; intros H k Hk; specialize (H k Hk).
-  - apply orb_true_iff in H. destruct H as [H|H]; auto. right.
-    apply existsb_exists in H. destruct H as [x [Hx E]]. apply Z.eqb_eq in E. subst. exact Hx.
-  - apply orb_true_iff. destruct H as [H|H]; auto. right.
-    apply existsb_exists. exists k. split; auto. apply Z.eqb_refl.
-Qed.
-
-Lemma has_live_app sid h t :
-  has_live_task sid (mk_hstate (h_flag h) (h_tasks h ++ [t])) =
-  has_live_task sid h || live_task sid t.
-Proof. unfold has_live_task. simpl. rewrite existsb_app. simpl. rewrite orb_false_r. reflexivity. Qed.
-
-Lemma has_live_pop sid k f l :
-  k <> sid -> has_live_task k (mk_hstate f (pop_task sid l)) = has_live_task k (mk_hstate f l).
-Proof.
-  intro N. unfold has_live_task. simpl. induction l as [|t r IH]; simpl; auto.
-  destruct (live_task sid t) eqn:E; simpl.
-  - unfold live_task in *. simpl. apply andb_true_iff in E. destruct E as [E1 E2].
-    apply Z.eqb_eq in E1. rewrite E1.
-    assert (sid =? k = false) as -> by (apply Z.eqb_neq; auto). reflexivity.
-  - rewrite IH. reflexivity.
-Qed.
-
-Lemma has_live_close sid f l :
-  has_live_task sid (mk_hstate f (map close_task l)) = has_live_task sid (mk_hstate true l).
-Proof.
-  unfold has_live_task. simpl. induction l as [|t r IH]; simpl; auto.
-  rewrite IH. f_equal. unfold live_task, close_task. destruct (t_live t) eqn:Lv; simpl; rewrite ?Lv; reflexivity.
-Qed.
-
-Lemma has_live_flag sid f g l :
-  has_live_task sid (mk_hstate f l) = has_live_task sid (mk_hstate g l).
-Proof. reflexivity. Qed.
-
-Lemma has_live_filter sid k f l :
-  k <> sid ->
-  has_live_task k (mk_hstate f (filter (fun t => negb (t_sid t =? sid)) l)) =
-  has_live_task k (mk_hstate f l).
-Proof.
-  intro N. unfold has_live_task. simpl. induction l as [|t r IH]; simpl; auto.
-  destruct (t_sid t =? sid) eqn:E; simpl.
-  - rewrite IH. unfold live_task. apply Z.eqb_eq in E. rewrite E.
-    assert (sid =? k = false) as -> by (apply Z.eqb_neq; auto). reflexivity.
-  - rewrite IH. reflexivity.
-Qed.
-
-Lemma kinv_seen_app seen more h ks : kinv seen h ks -> kinv (seen ++ more) h ks.
-Proof. intros H k Hk. destruct (H k Hk); auto. right. apply in_or_app. auto. Qed.
-
-Lemma NoDup_app_disj {A} (l l' : list A) x : NoDup (l ++ l') -> In x l -> ~ In x l'.
-Proof.
-  induction l as [|a l IH]; simpl; intros ND Hin; [contradiction|].
-  inversion ND as [|? ? Hn ND']; subst. destruct Hin as [->|Hin].
-  - intro H. apply Hn. apply in_or_app. auto.
-  - auto.
-Qed.
-
-Lemma NoDup_app_l {A} (l l' : list A) : NoDup (l ++ l') -> NoDup l.
-Proof.
-  induction l as [|a l IH]; simpl; intro ND; [constructor|].
-  inversion ND as [|? ? Hn ND']; subst. constructor; auto.
-  intro H. apply Hn. apply in_or_app. auto.
-Qed.
 
 (* ------------------------------------------------------------------------------------------ *)
 (* one event never raises: client (every event) and server (no repeated StreamReset) *)
@@ -394,19 +275,21 @@ Proof. intro R. unfold good, inv_b. simpl. auto. Qed.
 Lemma release_good ro s sid : good ro s -> good ro (release s sid).
 Proof. intro G. unfold release. destruct (lookup sid (st_reg s)); good_tac. Qed.
 
-Lemma client_event_total rest s e :
-  good Client s -> event_wf e = true ->
-  exists s', process rest s e = Ok s' /\ good Client s'.
+(* one event, either endpoint, every kind: never raises *)
+Lemma event_total ro rest s e :
+  good ro s -> event_wf e = true ->
+  exists s', process rest s e = Ok s' /\ good ro s'.
 Proof.
   intros G W. rewrite (process_spec rest s e W).
   destruct (st_closed s) eqn:C; [eauto|].
   destruct G as [R I].
   destruct e; simpl handler_spec; unfold process_nop;
     try (eexists; split; [reflexivity| good_tac]).
-  - (* Request: registered, refused (reset only if closable), released *)
-    unfold process_request_received. simpl. rewrite R, client_accept_ok.
-    eexists; split; [reflexivity|]. apply release_good.
-    destruct (closable rest _ sid); good_tac.
+  - (* Request: client = registered, refused (reset only if closable), released; server = task started *)
+    unfold process_request_received. simpl. rewrite R. destruct ro.
+    + rewrite client_accept_ok. eexists; split; [reflexivity|]. apply release_good.
+      destruct (closable rest _ sid); good_tac.
+    + eexists; split; [reflexivity|good_tac].
   - (* Response *) unfold process_response_received. simpl.
     destruct (lookup sid (st_reg s)); eexists; (split; [reflexivity|good_tac]).
   - (* Trailers *) unfold process_trailers_received. simpl.
@@ -421,110 +304,25 @@ Proof.
     destruct (lookup sid (st_reg s)); eexists; (split; [reflexivity|good_tac]).
   - (* Ended *) unfold process_stream_ended. simpl.
     destruct (lookup sid (st_reg s)); eexists; (split; [reflexivity|good_tac]).
-  - (* Reset *) unfold process_stream_reset. simpl.
-    destruct (lookup sid (st_reg s)); [rewrite R|]; eexists; (split; [reflexivity|good_tac]).
+  - (* Reset: client cancel = pass; server cancel = pop with a default, never raises *)
+    unfold process_stream_reset. simpl.
+    destruct (lookup sid (st_reg s)); [rewrite R; destruct ro|]; eexists; (split; [reflexivity|good_tac]).
   - (* Settings *) unfold process_remote_settings_changed. simpl.
     destruct iws, mcs; eexists; (split; [reflexivity|good_tac]).
-  (* PingAck and GOAWAY are closed by the `try` above: the result is close_conn / set_ping of s *)
-Qed.
-
-Definition sgood (seen : list Z) (s : state) : Prop :=
-  good Server s /\ kinv seen (st_h s) (keys (st_reg s)).
-
-Lemma server_event_total rest seen s e :
-  sgood seen s -> event_wf e = true ->
-  (forall x, In x (reset_id e) -> ~ In x seen) ->
-  exists s', process rest s e = Ok s' /\ sgood (seen ++ reset_id e) s'.
-Proof.
-  intros [G K] W ND. rewrite (process_spec rest s e W).
-  assert (K' : kinv (seen ++ reset_id e) (st_h s) (keys (st_reg s))) by (apply kinv_seen_app; exact K).
-  destruct (st_closed s) eqn:C; [exists s; split; [reflexivity|split; assumption]|].
-  destruct G as [R I].
-  assert (G : good Server s) by (split; assumption).
-  destruct e; simpl handler_spec; unfold process_nop;
-    try (exists s; split; [reflexivity|split; assumption]).
-  - (* Request *) unfold process_request_received. simpl. rewrite R.
-    eexists; split; [reflexivity|]. split; [good_tac|]. simpl.
-    intros k Hk. apply keys_upd_in in Hk. rewrite has_live_app.
-    destruct Hk as [->|Hk].
-    + left. unfold live_task. simpl. rewrite Z.eqb_refl. apply orb_true_r.
-    + destruct (K' k Hk) as [H|H]; auto. left. rewrite H. reflexivity.
-  - (* Response *) unfold process_response_received. simpl.
-    destruct (lookup sid (st_reg s)) eqn:L; eexists; (split; [reflexivity|]);
-      (split; [good_tac|]); simpl; auto.
-    rewrite (keys_upd_present _ _ _ _ L). exact K'.
-  - (* Trailers *) unfold process_trailers_received. simpl.
-    destruct (lookup sid (st_reg s)) eqn:L; eexists; (split; [reflexivity|]);
-      (split; [good_tac|]); simpl; auto.
-    rewrite (keys_upd_present _ _ _ _ L). exact K'.
-  - (* Data *) unfold process_data_received. simpl. simpl in W.
-    destruct (lookup sid (st_reg s)) eqn:L.
-    + eexists; (split; [reflexivity|]); (split; [good_tac|]); simpl.
-      rewrite (keys_upd_present _ _ _ _ L). exact K'.
-    + rewrite (conn_ack_ok s sid fcl I C) by lia.
-      destruct (fcl =? 0); eexists; (split; [reflexivity|]); (split; [good_tac|]); simpl; exact K'.
-  - (* Window *) unfold process_window_updated. simpl.
-    destruct (sid =? 0).
-    { eexists; (split; [reflexivity|]); (split; [good_tac|]); simpl. rewrite keys_map_reg. exact K'. }
-    destruct (lookup sid (st_reg s)) eqn:L; eexists; (split; [reflexivity|]);
-      (split; [good_tac|]); simpl; auto.
-    rewrite (keys_upd_present _ _ _ _ L). exact K'.
-  - (* Ended *) unfold process_stream_ended. simpl.
-    destruct (lookup sid (st_reg s)) eqn:L; eexists; (split; [reflexivity|]);
-      (split; [good_tac|]); simpl; auto.
-    rewrite (keys_upd_present _ _ _ _ L). exact K'.
-  - (* Reset *) unfold process_stream_reset. simpl. simpl in ND.
-    destruct (lookup sid (st_reg s)) eqn:L.
-    + rewrite R. simpl.
-      assert (Hl : has_live_task sid (st_h s) = true).
-      { destruct (K sid (lookup_in_keys _ _ _ L)) as [H|H]; auto. exfalso. apply (ND sid); auto. }
-      rewrite Hl. eexists; (split; [reflexivity|]); (split; [good_tac|]); simpl.
-      rewrite (keys_upd_present _ _ _ _ L). intros k Hk.
-      destruct (Z.eq_dec k sid) as [->|N].
-      * right. apply in_or_app. right. simpl. auto.
-      * rewrite (has_live_pop sid k _ _ N). destruct (K k Hk) as [H|H].
-        -- left. destruct (st_h s); exact H.
-        -- right. apply in_or_app. auto.
-    + eexists; (split; [reflexivity|]); (split; [good_tac|]); simpl. exact K'.
-  - (* Settings *) unfold process_remote_settings_changed. simpl.
-    destruct iws, mcs; eexists; (split; [reflexivity|]); (split; [good_tac|]); simpl;
-      rewrite ?keys_map_reg; exact K'.
-  - (* PingAck *) unfold process_ping_ack_received.
-    eexists; (split; [reflexivity|]); (split; [good_tac|]); simpl. exact K'.
-  - (* GOAWAY *) unfold process_connection_terminated. simpl.
-    eexists; split; [reflexivity|]. split; [apply close_conn_good; exact R|].
-    simpl. rewrite R. simpl. rewrite keys_map_reg. intros k Hk.
-    rewrite has_live_close. destruct (K' k Hk) as [H|H]; auto.
+  (* PingAck and GOAWAY are closed by the `try` above: the result is set_ping / close_conn of s *)
 Qed.
 
 (* ------------------------------------------------------------------------------------------ *)
 (* event lists *)
 
-Definition resets_ev (evs : list event) : list Z := flat_map reset_id evs.
-
-Lemma client_events_total evs : forall s,
-  good Client s -> forallb event_wf evs = true ->
-  exists s', run_events s evs = Ok s' /\ good Client s'.
+Lemma events_total ro evs : forall s,
+  good ro s -> forallb event_wf evs = true ->
+  exists s', run_events s evs = Ok s' /\ good ro s'.
 Proof.
   induction evs as [|e r IH]; intros s G W; simpl.
   - eauto.
   - simpl in W. apply andb_true_iff in W. destruct W as [W1 W2].
-    destruct (client_event_total r s e G W1) as [s1 [E G1]]. rewrite E. auto.
-Qed.
-
-Lemma server_events_total evs : forall seen s,
-  sgood seen s -> forallb event_wf evs = true -> NoDup (seen ++ resets_ev evs) ->
-  exists s', run_events s evs = Ok s' /\ sgood (seen ++ resets_ev evs) s'.
-Proof.
-  induction evs as [|e r IH]; intros seen s G W ND; simpl.
-  - rewrite app_nil_r. eauto.
-  - simpl in W. apply andb_true_iff in W. destruct W as [W1 W2].
-    unfold resets_ev in *. simpl in ND.
-    assert (D : forall x, In x (reset_id e) -> ~ In x seen).
-    { intros x Hx Hs. apply (NoDup_app_disj _ _ x ND Hs). apply in_or_app. auto. }
-    destruct (server_event_total r seen s e G W1 D) as [s1 [E G1]]. rewrite E.
-    rewrite app_assoc in ND. destruct (IH _ s1 G1 W2 ND) as [s2 [E2 G2]].
-    exists s2. split; auto. simpl. rewrite app_assoc. exact G2.
+    destruct (event_total ro r s e G W1) as [s1 [E G1]]. rewrite E. auto.
 Qed.
 
 (* running a PREFIX of a batch: its events are processed while h2 has already digested `tail`,
@@ -572,167 +370,71 @@ Qed.
 (* ------------------------------------------------------------------------------------------ *)
 (* whole histories (events interleaved with everything else that touches the state) *)
 
-Lemma client_step_total s i :
-  good Client s -> input_wf i = true ->
-  exists s', step s i = Ok s' /\ good Client s'.
+Lemma step_total ro s i :
+  good ro s -> input_wf i = true ->
+  exists s', step s i = Ok s' /\ good ro s'.
 Proof.
   intros G W. destruct G as [R I].
-  assert (G : good Client s) by (split; assumption).
+  assert (G : good ro s) by (split; assumption).
   destruct i; simpl.
   - destruct (st_tclosed s); [eauto|]. destruct b; simpl.
     + eexists; split; [reflexivity|]. apply close_conn_good; exact R.
     + eexists; split; [reflexivity|]. apply close_conn_good; exact R.
-    + apply client_events_total; assumption.
+    + apply events_total; assumption.
   - eexists; split; [reflexivity|]. apply close_conn_good; exact R.
-  - rewrite R. eexists; split; [reflexivity|good_tac].
-  - unfold release. destruct (lookup sid (st_reg s)); eexists; (split; [reflexivity|good_tac]).
+  - rewrite R. destruct ro; eexists; (split; [reflexivity|good_tac]).
+  - eexists; split; [reflexivity|]. apply release_good. exact G.
   - destruct (lookup sid (st_reg s)); eexists; (split; [reflexivity|good_tac]).
-  - unfold release. destruct (lookup sid (st_reg s)); eexists; (split; [reflexivity|good_tac]).
+  - eexists; split; [reflexivity|].
+    assert (G1 : good ro (release s sid)) by (apply release_good; exact G). good_tac.
   - destruct (lookup sid (st_reg s)); [destruct (0 <? s_queue s0)|]; eexists; (split; [reflexivity|good_tac]).
   - destruct (lookup sid (st_reg s)); eexists; (split; [reflexivity|good_tac]).
-  - rewrite R. eexists; (split; [reflexivity|good_tac]).
+  - rewrite R. destruct ro; eexists; (split; [reflexivity|good_tac]).
 Qed.
 
-Lemma client_history_total h : forall s,
-  good Client s -> forallb input_wf h = true ->
-  exists s', run s h = Ok s' /\ good Client s'.
+Lemma history_total ro h : forall s,
+  good ro s -> forallb input_wf h = true ->
+  exists s', run s h = Ok s' /\ good ro s'.
 Proof.
   induction h as [|i r IH]; intros s G W; simpl; [eauto|].
   simpl in W. apply andb_true_iff in W. destruct W as [W1 W2].
-  destruct (client_step_total s i G W1) as [s1 [E G1]]. rewrite E. auto.
+  destruct (step_total ro s i G W1) as [s1 [E G1]]. rewrite E. auto.
 Qed.
-
-Lemma resets_of_cons i h : resets_of (i :: h) = resets_ev (events_of i) ++ resets_of h.
-Proof. reflexivity. Qed.
-
-Lemma server_step_total seen s i :
-  sgood seen s -> input_wf i = true -> NoDup (seen ++ resets_ev (events_of i)) ->
-  exists s', step s i = Ok s' /\ sgood (seen ++ resets_ev (events_of i)) s'.
-Proof.
-  intros [G K] W ND. destruct G as [R I].
-  assert (G : good Server s) by (split; assumption).
-  assert (SG : sgood seen s) by (split; assumption).
-  destruct i; simpl in *; rewrite ?app_nil_r in *.
-  - destruct (st_tclosed s) eqn:T.
-    { exists s. split; auto. split; auto. apply kinv_seen_app. exact K. }
-    destruct b; simpl in *; rewrite ?app_nil_r in *.
-    + eexists; split; [reflexivity|]. split; [apply close_conn_good; exact R|].
-      simpl. rewrite R. simpl. rewrite keys_map_reg. intros k Hk. rewrite has_live_close.
-      destruct (K k Hk) as [H|H]; auto.
-    + eexists; split; [reflexivity|]. split; [apply close_conn_good; exact R|].
-      simpl. rewrite R. simpl. rewrite keys_map_reg. intros k Hk. rewrite has_live_close.
-      destruct (K k Hk) as [H|H]; auto.
-    + apply server_events_total; assumption.
-  - eexists; split; [reflexivity|]. split; [apply close_conn_good; exact R|].
-    simpl. rewrite R. simpl. rewrite keys_map_reg. intros k Hk. rewrite has_live_close.
-    destruct (K k Hk) as [H|H]; auto.
-  - rewrite R. eexists; split; [reflexivity|exact SG].
-  - unfold release. destruct (lookup sid (st_reg s)); eexists; (split; [reflexivity|]); auto.
-    split; [good_tac|]. simpl. intros k Hk. apply keys_remove_in in Hk. destruct Hk. auto.
-  - destruct (lookup sid (st_reg s)) eqn:L; eexists; (split; [reflexivity|]); auto.
-    split; [good_tac|]. simpl. rewrite (keys_upd_present _ _ _ _ L). exact K.
-  - eexists; split; [reflexivity|]. split.
-    { unfold release. destruct (lookup sid (st_reg s)); good_tac. }
-    simpl. intros k Hk.
-    assert (Hk' : In k (keys (st_reg s)) /\ k <> sid \/ (In k (keys (st_reg s)) /\ lookup sid (st_reg s) = None)).
-    { unfold release in Hk. destruct (lookup sid (st_reg s)) eqn:L; simpl in Hk.
-      - left. apply keys_remove_in. exact Hk.
-      - right. auto. }
-    destruct Hk' as [[Hin N]|[Hin L]].
-    + rewrite (has_live_filter sid k _ _ N). destruct (K k Hin) as [H|H]; auto. left.
-      unfold release. destruct (lookup sid (st_reg s)); simpl; destruct (st_h s); exact H.
-    + assert (N : k <> sid).
-      { intros ->. clear -Hin L. induction (st_reg s) as [|[k0 w] t IH]; simpl in *; [contradiction|].
-        destruct (k0 =? sid) eqn:E; [discriminate|]. destruct Hin as [H|H].
-        - apply Z.eqb_neq in E. contradiction.
-        - auto. }
-      rewrite (has_live_filter sid k _ _ N). destruct (K k Hin) as [H|H]; auto. left.
-      unfold release. rewrite L. destruct (st_h s); exact H.
-  - destruct (lookup sid (st_reg s)) eqn:L; [destruct (0 <? s_queue s0)|];
-      eexists; (split; [reflexivity|]); auto.
-    split; [good_tac|]. simpl. rewrite (keys_upd_present _ _ _ _ L). exact K.
-  - destruct (lookup sid (st_reg s)) eqn:L; eexists; (split; [reflexivity|]); auto.
-    split; [good_tac|]. simpl. rewrite (keys_upd_present _ _ _ _ L). exact K.
-  - rewrite R. eexists; split; [reflexivity|]. split; [good_tac|]. simpl.
-    intros k Hk. rewrite has_live_close. destruct (K k Hk) as [H|H]; auto.
-Qed.
-
-Lemma server_history_total h : forall seen s,
-  sgood seen s -> forallb input_wf h = true -> NoDup (seen ++ resets_of h) ->
-  exists s', run s h = Ok s' /\ sgood (seen ++ resets_of h) s'.
-Proof.
-  induction h as [|i r IH]; intros seen s G W ND; simpl.
-  - rewrite app_nil_r. eauto.
-  - simpl in W. apply andb_true_iff in W. destruct W as [W1 W2].
-    rewrite resets_of_cons in *. rewrite app_assoc in ND.
-    assert (ND1 : NoDup (seen ++ resets_ev (events_of i))) by (apply NoDup_app_l in ND; exact ND).
-    destruct (server_step_total seen s i G W1 ND1) as [s1 [E G1]]. rewrite E.
-    destruct (IH _ s1 G1 W2 ND) as [s2 [E2 G2]]. exists s2. split; auto.
-    rewrite app_assoc. exact G2.
-Qed.
-
-Lemma init_sgood : sgood [] (init Server).
-Proof. split; [split; reflexivity|]. intros k []. Qed.
 
 Lemma init_good ro : good ro (init ro).
 Proof. split; reflexivity. Qed.
 
-(* ---- the totality statements *)
-
-(* what h2 guarantees about the events of one connection: a stream is reset at most once and a
-   stream id is opened at most once (the second is not needed by the proof; it is the domain on
-   which keying handler tasks by stream id is exact) *)
-Definition h2_discipline (h : list input) : Prop :=
-  NoDup (resets_of h) /\ NoDup (requests_of h).
+(* ---- the totality statements: either endpoint, every history, every event kind.  The only
+   hypothesis left is event_wf (what h2 guarantees about the numbers it hands out: DataReceived is
+   for a real stream id and lengths are not negative -- h2.acknowledge_received_data would raise
+   ValueError otherwise -- and an OtherEvent really is of another class). *)
+Lemma endpoint_total :
+  forall ro h, forallb input_wf h = true ->
+  exists s', run (init ro) h = Ok s' /\ inv_b s' = true.
+Proof.
+  intros ro h W.
+  destruct (history_total ro h (init ro) (init_good ro) W) as [s' [E [R I]]]. eauto.
+Qed.
 
 Lemma server_total :
-  forall h, forallb input_wf h = true -> h2_discipline h ->
-  exists s', run (init Server) h = Ok s' /\ inv_b s' = true /\ sinv_b (resets_of h) s' = true.
-Proof.
-  intros h W [ND _].
-  destruct (server_history_total h [] (init Server) init_sgood W ND) as [s' [E [[R I] K]]].
-  exists s'. split; auto. split; auto. apply sinv_iff. exact K.
-Qed.
+  forall h, forallb input_wf h = true ->
+  exists s', run (init Server) h = Ok s' /\ inv_b s' = true.
+Proof. exact (endpoint_total Server). Qed.
 
 Lemma client_total :
   forall h, forallb input_wf h = true ->
   exists s', run (init Client) h = Ok s' /\ inv_b s' = true.
-Proof.
-  intros h W.
-  destruct (client_history_total h (init Client) (init_good Client) W) as [s' [E [R I]]].
-  eauto.
-Qed.
+Proof. exact (endpoint_total Client). Qed.
 
-(* one-step versions for an arbitrary state satisfying the invariants (what the driver evaluates on
-   every real pre-state) *)
-Lemma server_batch_total :
-  forall seen s b, st_role s = Server -> inv_b s = true -> sinv_b seen s = true ->
-  input_wf (IData b) = true -> NoDup (seen ++ resets_ev (events_of (IData b))) ->
-  exists s', data_received s b = Ok s' /\ inv_b s' = true /\
-             sinv_b (seen ++ resets_ev (events_of (IData b))) s' = true.
-Proof.
-  intros seen s b R I K W ND. apply sinv_iff in K.
-  assert (SG : sgood seen s) by (split; [split|]; assumption).
-  destruct b; simpl in *.
-  - eexists; split; [reflexivity|]. split; [reflexivity|]. apply sinv_iff. simpl.
-    rewrite R. simpl. rewrite keys_map_reg, app_nil_r. intros k Hk. rewrite has_live_close.
-    destruct (K k Hk) as [H|H]; auto.
-  - eexists; split; [reflexivity|]. split; [reflexivity|]. apply sinv_iff. simpl.
-    rewrite R. simpl. rewrite keys_map_reg, app_nil_r. intros k Hk. rewrite has_live_close.
-    destruct (K k Hk) as [H|H]; auto.
-  - destruct (server_events_total evs seen s SG W ND) as [s' [E [[R' I'] K']]].
-    exists s'. split; auto. split; auto. apply sinv_iff. exact K'.
-Qed.
-
-Lemma client_batch_total :
-  forall s b, st_role s = Client -> inv_b s = true ->
-  input_wf (IData b) = true ->
+(* one batch in ANY state with a live transport (what the driver evaluates on every real pre-state) *)
+Lemma batch_total :
+  forall s b, inv_b s = true -> input_wf (IData b) = true ->
   exists s', data_received s b = Ok s' /\ inv_b s' = true.
 Proof.
-  intros s b R I W. destruct b; simpl in *.
+  intros s b I W. destruct b; simpl in *.
   - eexists; split; reflexivity.
   - eexists; split; reflexivity.
-  - destruct (client_events_total evs s (conj R I) W) as [s' [E [R' I']]]. eauto.
+  - destruct (events_total (st_role s) evs s (conj eq_refl I) W) as [s' [E [R' I']]]. eauto.
 Qed.
 
 (* a stream opened by the peer towards a client is refused and leaves no trace: nothing a call can
@@ -771,28 +473,39 @@ Proof.
 Qed.
 
 (* ------------------------------------------------------------------------------------------ *)
-(* refutations of the unrestricted statements (witnesses; replayed on the real code by the driver) *)
-
-(* (the client statement used to be refuted here: RequestReceived -> NotImplementedError, D21, and then
-   h2.reset_stream raising on an already closed connection / stream; both repaired in /repo, the
-   former witnesses are now Examples of histories that do not raise) *)
+(* former refutation witnesses (all repaired in /repo): now Examples of histories that do not raise *)
 Definition client_witness : list input :=
   [IRegister 1; IData (H2Events [RequestReceived 2])].
 Definition client_witness_goaway : list input :=
   [IRegister 1; IData (H2Events [RequestReceived 2; ConnectionTerminated 0])].
 Definition client_witness_reset : list input :=
   [IRegister 1; IData (H2Events [RequestReceived 2; StreamReset 2 8 true])].
-
-(* FULL-STRENGTH STATEMENT (false without the h2 discipline):  forall h, forallb input_wf h = true ->
-     exists s', run (init Server) h = Ok s'.
-   A second StreamReset for a stream whose handler task was already popped raises KeyError.  h2
-   never emits it (a stream is reset once); the event list can only be injected below h2. *)
+(* a second StreamReset for a stream whose handler task was already popped: was a KeyError in
+   server.Handler.cancel (`_tasks.pop(stream)`), now pop with a default *)
 Definition server_witness : list input :=
   [IData (H2Events [RequestReceived 1; StreamReset 1 8 true; StreamReset 1 8 true])].
 
-Lemma server_total_without_discipline_refuted :
-  exists h, forallb input_wf h = true /\ run (init Server) h = Raises EKeyError.
-Proof. exists server_witness. split; vm_compute; reflexivity. Qed.
+(* a StreamReset for a registered stream whose task is no longer in _tasks (reset before, or
+   finished): the wrapper is terminated (again), the handler tables are untouched, nothing raises *)
+Lemma pop_task_absent sid l :
+  existsb (live_task sid) l = false -> pop_task sid l = l.
+Proof.
+  induction l as [|t r IH]; simpl; intro H; auto.
+  apply orb_false_iff in H. destruct H as [H1 H2]. rewrite H1. f_equal. auto.
+Qed.
+
+Lemma late_reset_tolerated rest s sid code remote r :
+  st_role s = Server -> st_closed s = false ->
+  lookup sid (st_reg s) = Some r -> has_live_task sid (st_h s) = false ->
+  exists s', process rest s (StreamReset sid code remote) = Ok s' /\
+    st_h s' = st_h s /\
+    st_reg s' = upd sid (terminated (if remote then RRemoteReset code else RProtocolError) r) (st_reg s).
+Proof.
+  intros R C L H. rewrite process_spec by reflexivity. rewrite C. simpl.
+  unfold process_stream_reset. simpl. rewrite L, R. simpl.
+  eexists; split; [reflexivity|]. simpl. split; [|reflexivity].
+  unfold has_live_task in H. rewrite (pop_task_absent _ _ H). destruct (st_h s); reflexivity.
+Qed.
 
 (* ------------------------------------------------------------------------------------------ *)
 (* tolerance *)
@@ -838,7 +551,7 @@ Definition stream_addressed (e : event) : option Z :=
 Definition same_calls (s s' : state) : Prop :=
   st_role s' = st_role s /\ st_reg s' = st_reg s /\ st_h s' = st_h s /\
   st_closed s' = st_closed s /\ st_tclosed s' = st_tclosed s /\
-  st_waiter s' = st_waiter s /\ st_ping s' = st_ping s.
+  st_waiter s' = st_waiter s /\ st_ping s' = st_ping s /\ st_rst s' = st_rst s.
 
 Definition returned_credit (s : state) (e : event) : list (Z * Z) :=
   match e with
@@ -846,7 +559,7 @@ Definition returned_credit (s : state) (e : event) : list (Z * Z) :=
   | _ => []
   end.
 
-Lemma unregistered_tolerated s e sid :
+Lemma unregistered_tolerated rest s e sid :
   inv_b s = true -> event_wf e = true ->
   stream_addressed e = Some sid -> lookup sid (st_reg s) = None ->
   exists s', process rest s e = Ok s' /\ same_calls s s' /\
@@ -927,7 +640,7 @@ Ltac split_match :=
   end.
 
 (* the only event that closes a live processor is ConnectionTerminated, and it closes everything *)
-Lemma only_goaway_closes s e s1 :
+Lemma only_goaway_closes rest s e s1 :
   event_wf e = true -> process rest s e = Ok s1 -> st_closed s = false -> st_closed s1 = true ->
   exists c, e = ConnectionTerminated c /\ s1 = close_conn (RGoaway c) s.
 Proof.
@@ -936,7 +649,8 @@ Proof.
     unfold process_nop, process_request_received, process_response_received,
       process_trailers_received, process_data_received, process_window_updated,
       process_stream_ended, process_stream_reset, process_remote_settings_changed,
-      process_connection_terminated, process_ping_ack_received, conn_ack in P; simpl in P;
+      process_connection_terminated, process_ping_ack_received, conn_ack, reset_nowait, release in P;
+    simpl in P;
     repeat split_match; try discriminate;
     repeat match goal with H : Ok _ = Ok _ |- _ => inversion H; clear H; subst end;
     simpl in C1; try congruence.
@@ -946,20 +660,17 @@ Qed.
 Lemma closing_batch_is_goaway evs : forall s s',
   forallb event_wf evs = true -> run_events s evs = Ok s' ->
   st_closed s = false -> st_closed s' = true ->
-  exists pre c post s1, evs = pre ++ ConnectionTerminated c :: post /\
-                        run_events s pre = Ok s1 /\ st_closed s1 = false /\
-                        s' = close_conn (RGoaway c) s1.
+  exists c s1, st_closed s1 = false /\ s' = close_conn (RGoaway c) s1.
 Proof.
   induction evs as [|e r IH]; intros s s' W P C C'; simpl in P.
   - inversion P; subst. congruence.
   - simpl in W. apply andb_true_iff in W. destruct W as [W1 W2].
-    destruct (process rest s e) as [s1|x] eqn:E; [|discriminate].
+    destruct (process r s e) as [s1|x] eqn:E; [|discriminate].
     destruct (st_closed s1) eqn:C1.
-    + destruct (only_goaway_closes s e s1 W1 E C C1) as [c [-> ->]].
+    + destruct (only_goaway_closes r s e s1 W1 E C C1) as [c [-> ->]].
       rewrite closed_ignores_all in P by reflexivity. inversion P; subst.
-      exists [], c, r, s. simpl. auto.
-    + destruct (IH s1 s' W2 P C1 C') as [pre [c [post [s2 [-> [R [C2 ->]]]]]]].
-      exists (e :: pre), c, post, s2. simpl. rewrite E. auto.
+      exists c, s. auto.
+    + exact (IH s1 s' W2 P C1 C').
 Qed.
 
 (* violation or GOAWAY => orderly shutdown: whenever a batch closes the connection, every
@@ -974,27 +685,72 @@ Proof.
   intros W P C C'. destruct b; simpl in *.
   - inversion P; subst. exists RProtocolError. split; [apply close_shuts_down|].
     split; [intro evs; apply closed_ignores_all; reflexivity | intro b; reflexivity].
-  - destruct (closing_batch_is_goaway evs s s' W P C C') as [pre [c [post [s1 [_ [_ [_ ->]]]]]]].
+  - inversion P; subst. exists RProtocolError. split; [apply close_shuts_down|].
+    split; [intro evs; apply closed_ignores_all; reflexivity | intro b; reflexivity].
+  - destruct (closing_batch_is_goaway evs s s' W P C C') as [c [s1 [_ ->]]].
     exists (RGoaway c). split; [apply close_shuts_down|].
     split; [intro evs'; apply closed_ignores_all; reflexivity | intro b; reflexivity].
 Qed.
 
+(* a header block h2 cannot decode (UnicodeDecodeError) is handled exactly like a ProtocolError *)
+Lemma undecodable_headers_shut_down s :
+  data_received s H2UnicodeDecodeError = data_received s H2ProtocolError.
+Proof. reflexivity. Qed.
+
+(* GOAWAY anywhere in a batch: the events before it are processed (h2 having already seen the
+   GOAWAY), then everything is shut down and the rest of the batch is ignored *)
 Lemma goaway_mid_batch s pre c post s1 :
-  run_events s pre = Ok s1 -> st_closed s1 = false ->
+  run_events_in (ConnectionTerminated c :: post) s pre = Ok s1 -> st_closed s1 = false ->
   run_events s (pre ++ ConnectionTerminated c :: post) = Ok (close_conn (RGoaway c) s1).
 Proof.
   intros R C. rewrite run_events_app, R. simpl.
-  rewrite (process_spec s1 (ConnectionTerminated c)) by reflexivity. rewrite C. simpl.
+  rewrite (process_spec post s1 (ConnectionTerminated c)) by reflexivity. rewrite C. simpl.
   apply closed_ignores_all. reflexivity.
 Qed.
 
+(* what the input path can learn about the rest of a batch: is a GOAWAY ahead, is a reset of a
+   given stream ahead -- nothing else *)
+Definition same_ahead (a b : list event) : Prop :=
+  h2_conn_closed a = h2_conn_closed b /\ forall sid, h2_stream_closed a sid = h2_stream_closed b sid.
+
+Lemma process_ahead a b s e : same_ahead a b -> process a s e = process b s e.
+Proof.
+  intros [H1 H2]. unfold process. destruct (st_closed s); auto.
+  destruct (assoc_str (class_name e) processors) as [name|]; auto.
+  unfold run_handler, handlers. cbn [assoc_str].
+  destruct (zlist_eqb name n_process_request_received); [|reflexivity].
+  unfold process_request_received. destruct (f_stream_id e) as [sid|]; auto.
+  unfold closable, reset_nowait, h2_reset_stream. rewrite H1, (H2 sid). reflexivity.
+Qed.
+
+Lemma tolerated_not_ahead tol :
+  forallb tolerated tol = true ->
+  existsb is_goaway tol = false /\ forall sid, existsb (is_reset_of sid) tol = false.
+Proof.
+  induction tol as [|e r IH]; simpl; intro T; [auto|].
+  apply andb_true_iff in T. destruct T as [T1 T2]. destruct (IH T2) as [A B].
+  destruct e; simpl in T1; try discriminate; simpl; auto.
+Qed.
+
+Lemma ahead_without_tolerated r tol post :
+  forallb tolerated tol = true -> same_ahead (r ++ tol ++ post) (r ++ post).
+Proof.
+  intro T. destruct (tolerated_not_ahead tol T) as [A B].
+  unfold same_ahead, h2_conn_closed, h2_stream_closed. split; [|intro sid];
+    rewrite !existsb_app, ?A, ?B; reflexivity.
+Qed.
+
 (* tolerable events injected at any point of any batch change nothing at all *)
-Lemma tolerated_anywhere s pre tol post :
+Lemma tolerated_anywhere pre tol post : forall s,
   forallb tolerated tol = true -> forallb event_wf tol = true ->
   run_events s (pre ++ tol ++ post) = run_events s (pre ++ post).
 Proof.
-  intros T W. rewrite !run_events_app. destruct (run_events s pre) as [s1|x]; auto.
-  rewrite run_events_app, (tolerated_list_ignored tol s1 T W). reflexivity.
+  intros s T W. revert s. induction pre as [|e r IH]; intro s.
+  - simpl. revert s. induction tol as [|e r IH]; intro s; simpl; auto.
+    simpl in T, W. apply andb_true_iff in T. apply andb_true_iff in W. destruct T, W.
+    rewrite tolerated_ignored; auto.
+  - simpl. rewrite (process_ahead _ _ s e (ahead_without_tolerated r tol post T)).
+    destruct (process (r ++ post) s e); auto.
 Qed.
 
 (* ... and events for unregistered streams, at the level of one batch: calls see nothing *)
